@@ -33,6 +33,18 @@ def run(tier):
     rep = Report('C12', tier)
     prog = load_core('systemd')
     decide(rep, prog)
+    # "dropped because the mapping session saw no traffic for 30 s": the tick empties the table when the armed deadline expires,
+    # the deadline is armed as clock + 30 s, and no tick before that disarms it (the obligations of C14's tick, decided here too)
+    rep.rule('R12.h', 'the 30 s silence of the mapper empties the table: the tick tears the session down on an expired deadline and no earlier tick disarms an armed one', floor=6)
+    from .automata_common import Automaton
+    from .c07 import RuleView
+    from . import c14
+    Am = Automaton(prog, 'init_automata_mapping', 'switch_state_mapping')
+    roles = c14.mapping_roles(Am)
+    if roles is None:
+        rep.fail('R12.h', 'mapping|life-cycle', 'the mapping engine has no idle -Discover-> Command -Emit-> Emit life-cycle: the inactivity teardown cannot be examined', function='init_automata_mapping')
+    else:
+        c14.tick_checks(RuleView(rep, {r: 'R12.h' for r in ('R14.3', 'R14.4', 'R14.5', 'R14.3.ub', 'R14.4.ub')}), prog, Am, roles)
     return finish(rep, 'other',
                   'Decides, on the non-testing build of the core: single caller of the send slot; a send implies a non-empty, not-all-complete table; every send is dominated by the '
                   'failed suppression test against the last transmit time and post-dominated by storing now into it, and nothing else stores it - hence consecutive periodic Hellos are '
